@@ -531,6 +531,32 @@ def _solve(eng, pr, extra, timeout_ms, seed=0):
     return r, (s.model() if r == "sat" else None)
 
 
+def _solve_sliced(eng, pr, timeout_ms, seed=0):
+    base = list(pr.assume) + list(pr.path)
+    need = set()
+    for c in base:
+        need |= eng._vars(c)
+    side = [(c, eng._vars(c)) for c in pr.side]
+    picked, changed = [False] * len(side), True
+    while changed:
+        changed = False
+        for i, (c, v) in enumerate(side):
+            if not picked[i] and v & need:
+                picked[i] = True
+                if not v <= need:
+                    need |= v
+                    changed = True
+    s = z3.Solver()
+    s.set("timeout", int(timeout_ms))
+    s.add(*base)
+    s.add(*[c for (c, v), p in zip(side, picked) if p])
+    t = time.time()
+    r = str(s.check())
+    eng.stats.solver_calls += 1
+    eng.stats.solver_time += time.time() - t
+    return r
+
+
 def _neg_with_margin(ob, margin):
     if not ob.pairs:
         return None
@@ -753,6 +779,10 @@ def run_unit(prop_id, unit, tier, seed=0):
     for pr in prs:
         if pr.status == "ok":
             r, _ = _solve(eng, pr, [], unit.ob_ms, seed)
+            if r == "unknown":
+                # definitional side constraints (fresh r with r*r == t, ...) outside the cone of influence of the path condition cannot make it
+                # unreachable; retry with the side constraints that share variables with assume + path only
+                r = _solve_sliced(eng, pr, unit.ob_ms, seed)
             if r == "sat":
                 res["reachable_paths"] += 1
             if res["reachable_paths"] >= 3:
